@@ -17,8 +17,14 @@ func (RawEnc) Marshal(msg drpc.Message) ([]byte, error) { return *(msg.(*[]byte)
 func (e RawEnc) Unmarshal(buf []byte, msg drpc.Message) error {
 	if e.W != nil {
 		e.W.noteDelivery(buf)
+		t0, d0, s0, ok0 := PayloadInfo(buf)
 		if e.W.Points != nil {
 			e.W.Points.hit("harness.Unmarshal.holding")
+		}
+		// the buffer is the decoder's until Unmarshal returns: whatever happened to the stream meanwhile, it must
+		// still hold the message it was called with
+		if t1, d1, s1, ok1 := PayloadInfo(buf); ok0 && (!ok1 || t1 != t0 || d1 != d0 || s1 != s0) {
+			e.W.Violate("the bytes handed to Unmarshal changed while it was decoding them (message seq %d of tag %d)", s0, t0)
 		}
 	}
 	*(msg.(*[]byte)) = append([]byte(nil), buf...)
